@@ -8,8 +8,14 @@ import (
 
 // Oracles for the helpers, written directly over the generating unit list.
 
+// typeOf reads the type from the unit the way the standards define it: AVC nal_unit_type = low 5 bits of the
+// one-byte header; HEVC nal_unit_type = bits 14..9 of the two-byte header (a one-byte HEVC unit, which the
+// generator also produces, has only the first header byte).
 func typeOf(hevcMode bool, u []byte) int {
 	if hevcMode {
+		if len(u) >= 2 {
+			return (int(u[0])<<8 | int(u[1])) >> 9 & 0x3f
+		}
 		return int(u[0]>>1) & 0x3f
 	}
 	return int(u[0]) & 0x1f
